@@ -215,6 +215,38 @@ Definition reader_step (t : table) (k : N) : option (table * out * bytes * conn)
   | _ => None
   end.
 
+(* ---- the listener's own writes (state.go: State.write / State.close) ----
+   Socket.Write(p) -> State.write(p): ONE segment PSH|ACK carrying p, then SND.NXT += len p.
+   Socket.Close() -> State.close(): FIN|ACK, SND.NXT++, FIN-WAIT-1. *)
+Definition conn_write (c : conn) (data : bytes) : out * conn :=
+  let '(o, c1) := send c (PSH + ACK) data in
+  (o, set_seq c1 (c_una c1) (u32 (c_nxt c1 + zlen data)) (c_rcv c1)).
+
+Definition conn_close (c : conn) : out * conn :=
+  let '(o, c1) := send c (FIN + ACK) [] in
+  (o, set_reader (set_st (set_seq c1 (c_una c1) (u32 (c_nxt c1 + 1)) (c_rcv c1)) FinWait1) false).
+
+(* a sequence of writes, in order *)
+Fixpoint conn_writes (c : conn) (ws : list bytes) : list out * conn :=
+  match ws with
+  | [] => ([], c)
+  | w :: r => let '(o, c1) := conn_write c w in
+              let '(os, c2) := conn_writes c1 r in (o :: os, c2)
+  end.
+
+(* a per-port decoder goroutine (tcp_handlers.go) ran to its end: it emptied the receive ring,
+   wrote [ws] (DecodeHTTP / DecodeElasticsearch: the serialised zero http.Response in one
+   bufio flush when http.ReadRequest accepted the client's stream, nothing otherwise; every
+   other decoder writes nothing) and closed.  What net/http produces is an input. *)
+Definition decoder_step (t : table) (k : N) (ws : list bytes) : option (table * list out) :=
+  match find (fun oc => match oc with Some c => (c_key c =? k)%N | None => false end) t with
+  | Some (Some c) =>
+      let '(os, c1) := conn_writes (set_ring c []) ws in
+      let '(o, c2) := conn_close c1 in
+      Some (tput t c2, os ++ [o])
+  | _ => None
+  end.
+
 (* ---- wire format of an emitted segment ---- *)
 Definition word_hi (v : Z) : N := Z.to_N ((v / 256) mod 256).
 Definition word_lo (v : Z) : N := Z.to_N (v mod 256).
@@ -261,3 +293,24 @@ Definition frame_bytes (dmac smac : bytes) (o : out) : bytes :=
 
 (* ones'-complement verification sum of a byte string (what a receiver computes) *)
 Definition verify_sum (l : bytes) : Z := fold3 (sum_words l).
+
+(* updateTCPChecksum(iph, data) as a function on the marshalled segment [data] (any length, the
+   loop skips the word at offset 16, an odd last byte counts as the high byte of a word whose
+   low byte is zero - it is not transmitted), result stored in data[16:18] *)
+Definition segment_sum0 (src dst : ip) (data : bytes) : Z :=
+  pseudo_sum src dst (zlen data) + sum_words (firstn 16 data) + sum_words (skipn 18 data).
+
+Definition fill_checksum (ck : Z) (data : bytes) : bytes :=
+  firstn 16 data ++ be_enc 2 ck ++ skipn 18 data.
+
+Definition update_tcp_checksum (src dst : ip) (data : bytes) : bytes :=
+  fill_checksum (cksum_of_sum (segment_sum0 src dst data)) data.
+
+(* what a receiver computes over pseudo header + segment as received *)
+Definition segment_verify_sum (src dst : ip) (data : bytes) : Z :=
+  pseudo_sum src dst (zlen data) + sum_words data.
+
+(* the ones'-complement sum itself: the 16-bit value the end-around-carry folding converges to
+   for a sum of ANY size (0 only for 0) *)
+Definition ocfold (s : Z) : Z := if s =? 0 then 0 else 1 + (s - 1) mod 65535.
+Definition occk (s : Z) : Z := 65535 - ocfold s.
